@@ -75,7 +75,7 @@ func classOf(s string) string {
 	return strings.Join(cs, "+")
 }
 
-var litSites = []string{"table-comment", "column-comment", "default", "check", "enum-value", "index-comment"}
+var litSites = []string{"table-comment", "column-comment", "default", "check", "enum-value", "enum-value-first", "enum-value-middle", "index-comment"}
 var identSites = []string{"column-name", "index-name", "table-name"}
 var formatters = []string{"atlas", "golang-migrate", "goose", "flyway", "liquibase", "dbmate"}
 
@@ -86,6 +86,7 @@ func genCase(idents bool) func(t *rapid.T) Case {
 			Indent: rapid.SampledFrom([]string{"", "  ", "\t"}).Draw(t, "indent"), Formatter: rapid.SampledFrom(formatters).Draw(t, "formatter")}
 		if c.Formatter == "atlas" {
 			c.Delimiter = rapid.SampledFrom([]string{"", "", ";;", "\n\n", "$$", "//"}).Draw(t, "delimiter")
+			c.Checkpoint = rapid.IntRange(0, 3).Draw(t, "checkpoint") == 0
 		}
 		used := map[string]bool{}
 		for n := rapid.IntRange(0, 3).Draw(t, "ninject"); n > 0; n-- {
@@ -135,6 +136,9 @@ func mkCheck(col *ev.Collector) func(Case) error {
 			return err
 		}
 		col.Class(c.Dialect + "/" + c.Formatter)
+		if c.Checkpoint {
+			col.Class(fmt.Sprintf("atlas/checkpoint-file/delimiter=%v", c.Delimiter != ""))
+		}
 		if out.Imported {
 			col.Class("import/" + c.Formatter)
 		}
@@ -160,6 +164,26 @@ func TestCheck(t *testing.T) {
 	col := ev.New("C07", "exploration", rule)
 	defer col.Finish()
 	check := mkCheck(col)
+	// PostgreSQL enum values next to an inserted value are named by its BEFORE / AFTER clause: every hostile string as
+	// first / middle / last value x a value inserted at every position x every formatter
+	for _, h := range hostile {
+		for _, site := range []string{"enum-value-first", "enum-value-middle", "enum-value"} {
+			base := c02.Base("postgres")
+			ins := []Inject{{Site: site, S: h}}
+			inject("postgres", &base, ins)
+			for _, st := range c02.Sites("postgres", base) {
+				if st.E.Kind != "enum-insert-value" && st.E.Kind != "enum-add-value" || st.E.Obj != "mood" {
+					continue
+				}
+				for fi, f := range formatters {
+					c := Case{Dialect: "postgres", Scenario: "modify", Edits: []c02.EditRef{st.E}, Injects: ins, Indent: []string{"", "  "}[fi%2], Formatter: f}
+					if !ev.Each(col, "enum-position-clauses", c, check, known) {
+						return
+					}
+				}
+			}
+		}
+	}
 	if !ev.Rapid(t, col, "literals", col.N(5000, 500000), genCase(false), check, known) {
 		return
 	}
